@@ -66,6 +66,13 @@ pub open spec fn image(file: Seq<u8>, phs: Seq<ProgramHeader>, base: u64) -> Byt
     }
 }
 
+/// a well-formed in-file segment contributes exactly p_memsz bytes
+pub proof fn lemma_seg_data_len(file: Seq<u8>, ph: ProgramHeader, base: u64)
+    requires seg_wf(ph, base), seg_in_file(file, ph),
+    ensures seg_data(file, ph).len() == ph.p_memsz,
+{
+}
+
 /// a byte map moved up by `b`
 pub open spec fn shift_map(m: ByteMap, b: u64) -> ByteMap {
     IMap::new(|x: u64| x >= b && m.contains_key((x - b) as u64), |x: u64| m[(x - b) as u64])
@@ -73,7 +80,7 @@ pub open spec fn shift_map(m: ByteMap, b: u64) -> ByteMap {
 
 /// nothing of the image lies at or above 2^64 - 1 - (what the well-formedness bound allows)
 pub proof fn lemma_image_bound(file: Seq<u8>, phs: Seq<ProgramHeader>, base: u64, x: u64)
-    requires segs_wf(phs, base), image(file, phs, base).contains_key(x),
+    requires segs_wf(phs, base), segs_in_file(file, phs), image(file, phs, base).contains_key(x),
     ensures
         exists|i: int| 0 <= i < phs.len() && is_load(#[trigger] phs[i])
             && phs[i].p_vaddr + base <= x < phs[i].p_vaddr + base + phs[i].p_memsz,
@@ -82,15 +89,16 @@ pub proof fn lemma_image_bound(file: Seq<u8>, phs: Seq<ProgramHeader>, base: u64
     if phs.len() > 0 {
         let ph = phs.last();
         let pre = phs.drop_last();
-        assert(segs_wf(pre, base)) by {
-            assert forall|i: int| 0 <= i < pre.len() && is_load(#[trigger] pre[i]) implies seg_wf(pre[i], base) by {
+        assert(segs_wf(pre, base) && segs_in_file(file, pre)) by {
+            assert forall|i: int| 0 <= i < pre.len() && is_load(#[trigger] pre[i]) implies seg_wf(pre[i], base) && seg_in_file(file, pre[i]) by {
                 assert(pre[i] == phs[i]);
             }
         }
         if is_load(ph) && ph.p_vaddr + base <= x < ph.p_vaddr + base + ph.p_memsz {
             assert(phs[phs.len() - 1] == ph);
         } else {
-            assert(is_load(phs[phs.len() - 1]) ==> seg_wf(phs[phs.len() - 1], base));
+            assert(is_load(phs[phs.len() - 1]) ==> seg_wf(phs[phs.len() - 1], base) && seg_in_file(file, phs[phs.len() - 1]));
+            if is_load(ph) { lemma_seg_data_len(file, ph, base); }
             assert(image(file, pre, base).contains_key(x));
             lemma_image_bound(file, pre, base, x);
             let i = choose|i: int| 0 <= i < pre.len() && is_load(#[trigger] pre[i])
@@ -103,7 +111,7 @@ pub proof fn lemma_image_bound(file: Seq<u8>, phs: Seq<ProgramHeader>, base: u64
 /// REBASING of the memory image: the content loaded at base `b` is the content loaded at base 0,
 /// every address exactly `b` higher (same bytes, same permissions, nothing else).
 pub proof fn lemma_image_rebase(file: Seq<u8>, phs: Seq<ProgramHeader>, b: u64)
-    requires segs_wf(phs, b),
+    requires segs_wf(phs, b), segs_in_file(file, phs),
     ensures image(file, phs, b) == shift_map(image(file, phs, 0), b), segs_wf(phs, 0),
     decreases phs.len(),
 {
@@ -113,8 +121,8 @@ pub proof fn lemma_image_rebase(file: Seq<u8>, phs: Seq<ProgramHeader>, b: u64)
     } else {
         let ph = phs.last();
         let pre = phs.drop_last();
-        assert(segs_wf(pre, b)) by {
-            assert forall|i: int| 0 <= i < pre.len() && is_load(#[trigger] pre[i]) implies seg_wf(pre[i], b) by {
+        assert(segs_wf(pre, b) && segs_in_file(file, pre)) by {
+            assert forall|i: int| 0 <= i < pre.len() && is_load(#[trigger] pre[i]) implies seg_wf(pre[i], b) && seg_in_file(file, pre[i]) by {
                 assert(pre[i] == phs[i]);
             }
         }
@@ -122,7 +130,8 @@ pub proof fn lemma_image_rebase(file: Seq<u8>, phs: Seq<ProgramHeader>, b: u64)
         let mb = image(file, pre, b);
         let m0 = image(file, pre, 0);
         if is_load(ph) {
-            assert(seg_wf(phs[phs.len() - 1], b));
+            assert(seg_wf(phs[phs.len() - 1], b) && seg_in_file(file, phs[phs.len() - 1]));
+            lemma_seg_data_len(file, ph, b);
             let d = seg_data(file, ph);
             let p = seg_perm(ph.p_flags);
             assert(d.len() == ph.p_memsz);
